@@ -8,7 +8,7 @@ from . import common as c
 
 SUPPORT = ["Num/Dec.v", "Num/DecLemmas.v", "Num/IntParse.v", "Num/IntParseProofs.v", "Num/NumGrammar.v", "Num/NumGrammarProofs.v",
            "Num/SkipNumberProofs.v", "Num/Range.v", "Num/RangeProofs.v", "Num/IntPrint.v", "Num/IntPrintProofs.v", "Num/IntPrintExact.v",
-           "Num/FloatFmt.v", "Num/FloatFmtProofs.v", "Num/FloatCheck.v", "Num/FloatSpec.v", "Num/FloatCheckProofs.v", "Num/FloatCheckSound.v",
+           "Num/FloatFmt.v", "Num/FloatFmtProofs.v", "Num/WriteDecDenotes.v", "Num/FloatCheck.v", "Num/FloatSpec.v", "Num/FloatCheckProofs.v", "Num/FloatCheckSound.v",
            "Num/VNumber.v", "Num/Api.v"]
 
 CLAIM = {
@@ -105,7 +105,7 @@ def run(ctx):
     for fn in os.listdir(work):
         os.remove(os.path.join(work, fn))
     quick = ctx.tier == "quick"
-    scale = 2 if quick else 24
+    scale = 2 if quick else 64
     corpus = os.path.join(work, "corpus.hex")
     lines = []
     cdir = os.path.join(c.ROOT, "corpus", "C19")
